@@ -51,6 +51,11 @@ func runCheck(ld *Loaded, db *SpecDB, work string, t0 time.Time) int {
 	var all []*Obligation
 	engineErrs := []string{}
 	tGen := time.Now()
+	// Functions of the property: those whose contract names it (block or clause level), and -
+	// because verification is modular - every function whose contract they rely on, transitively:
+	// a change inside a callee is noticed exactly when it breaks that callee's own contract.
+	selected := map[string]bool{}
+	var order []string
 	for _, fn := range ld.funcs {
 		key := fnKeyOf(fn)
 		if *flagFunc != "" && !strings.Contains(key, *flagFunc) {
@@ -58,18 +63,43 @@ func runCheck(ld *Loaded, db *SpecDB, work string, t0 time.Time) int {
 		}
 		c := db.Contracts[key]
 		if prop != "" && prop != "C04" {
-			if c == nil || !hasProp(c.Props, prop) {
-				// a function matters to a property only through its contract's props or clause tags
-				if c == nil || !clauseHasProp(c, prop) {
-					continue
-				}
+			if c == nil || (!hasProp(c.Props, prop) && !clauseHasProp(c, prop)) {
+				continue
 			}
 		}
+		selected[key] = true
+		order = append(order, key)
+	}
+	direct := len(order)
+	for i := 0; i < len(order); i++ {
+		key := order[i]
+		fn := ld.byKey[key]
 		rep := ex.verifyFunction(fn)
+		rep.Dependency = i >= direct
 		reports = append(reports, rep)
 		for _, ob := range rep.Obls {
-			if prop == "" || hasProp(ob.Props, prop) || ob.Kind == "cover" {
+			if rep.Dependency && hasProp(ob.Props, "!explicit") && !hasProp(ob.Props, prop) && ob.Kind != "cover" {
+				// a clause written for another property: decided by that property's check
+				continue
+			}
+			if prop == "" || rep.Dependency || hasProp(ob.Props, prop) || ob.Kind == "cover" {
+				if rep.Dependency && prop != "" && !hasProp(ob.Props, prop) {
+					ob.Props = append(append([]string(nil), ob.Props...), prop)
+				}
 				all = append(all, ob)
+			}
+		}
+		if prop == "" || *flagFunc != "" {
+			continue
+		}
+		for _, u := range rep.UsedSpecs {
+			if !strings.HasPrefix(u, "func ") {
+				continue
+			}
+			dk := strings.TrimPrefix(u, "func ")
+			if dep, ok := ld.byKey[dk]; ok && !selected[dk] && dep != nil {
+				selected[dk] = true
+				order = append(order, dk)
 			}
 		}
 	}
@@ -318,6 +348,7 @@ func finish(ld *Loaded, db *SpecDB, reports []*FuncReport, groups map[string]*ob
 			continue
 		}
 		replayPath, confirmed := tryReplay(ld, prop, n, bad, work)
+		lines = append(lines, fmt.Sprintf("FAILED-OBLIGATION: property=%s %s status=%s source=%s", prop, n, bad.Status, bad.Pos))
 		switch {
 		case bad.Status == "failed" && confirmed:
 			violations++
